@@ -162,7 +162,14 @@ def xmlize(v):
     if isinstance(v, list):
         return [xmlize(x) for x in v]
     if isinstance(v, dict):
-        return {'__obj__': [(xmlize(k), xmlize(x)) for k, x in v['__obj__']]}
+        out, seen = [], set()
+        for k, x in v['__obj__']:
+            k2 = xmlize(k)
+            if k2 in seen:
+                continue        # keys that become equal after the replacement: duplicates, default policy use-first
+            seen.add(k2)
+            out.append((k2, xmlize(x)))
+        return {'__obj__': out}
     return v
 
 
